@@ -139,14 +139,15 @@ CONSTANTS MaxLoads = {n}
   WithIntro = {intro}
   Vias = {vias}
   TypesOnly = {typesonly}
+  Buildable = {buildable}
 INVARIANTS AlwaysValid AsIfNeverHappened Emit
 PROPERTIES Atomic
 CHECK_DEADLOCK FALSE
 """
 
-def loader_cfg(n, prefixes, devs, intro, vias=("sdl",), typesonly=False):
+def loader_cfg(n, prefixes, devs, intro, vias=("sdl",), typesonly=False, buildable=False):
     return LOADER_CFG.format(n=n, prefixes=tlaset(prefixes), known=tlaset(sorted(devs)), intro=intro, vias=tlaset(vias),
-                             typesonly="TRUE" if typesonly else "FALSE")
+                             typesonly="TRUE" if typesonly else "FALSE", buildable="TRUE" if buildable else "FALSE")
 
 
 ARRANGE_CFG = """SPECIFICATION ASpec
@@ -160,7 +161,9 @@ CHECK_DEADLOCK FALSE
 
 def run_c14(ctx):
     devs = known_devs()
-    plans = [(2, ["p0", "p1", "p2", "p3"])] if ctx.tier == "quick" else [(3, ["p0", "p1"]), (2, ["p2", "p3"])]
+    # (thorough: one TLC run per prefix at depth 3 - the states carry the canonical schema and the introspection view after
+    # every load, two prefixes at once need more than 16 GB of heap since the universe has 90 documents)
+    plans = [(2, ["p0", "p1", "p2", "p3"])] if ctx.tier == "quick" else [(3, ["p0"]), (3, ["p1"]), (2, ["p2", "p3"])]
     n = max(p[0] for p in plans)
     for k, prefixes in plans:
         # quick: every second history, chosen by the seed (TLC still checks Atomic / AsIfNeverHappened on all of them)
@@ -168,9 +171,10 @@ def run_c14(ctx):
                          extra=["-intro"], vec_filter=(lambda i: i % 2 == ctx.seed % 2) if ctx.tier == "quick" else None)
     # "or adding types": the same histories with documents delivered as Go-built types through Root.AddTypes wherever a
     # document has such a form (no extend / schema block, nothing to read); only histories with at least one such load
+    # (depth 3 over the documents that can be built in Go only)
     tplans = [(2, ["p0", "p1", "p2", "p3"])] if ctx.tier == "quick" else [(3, ["p1"]), (2, ["p0", "p2", "p3"])]
     for k, prefixes in tplans:
-        loader_histories(ctx, loader_cfg(k, prefixes, devs, "TRUE", vias=("sdl", "types"), typesonly=True), "addtypes-histories-%d-%s" % (k, "".join(prefixes)),
+        loader_histories(ctx, loader_cfg(k, prefixes, devs, "TRUE", vias=("sdl", "types"), typesonly=True, buildable=(k >= 3)), "addtypes-histories-%d-%s" % (k, "".join(prefixes)),
                          {"verdict", "atomic", "schema", "intro"}, devs, extra=["-intro"],
                          vec_filter=(lambda i: i % 2 == ctx.seed % 2) if ctx.tier == "quick" else None, what="MCLoader (AddTypes)")
     record_and_judge(ctx, devs, 400 if ctx.tier == "quick" else 6000)
